@@ -174,3 +174,13 @@ func VerifHarness_C04_O2() { VerifHarness_C01_O5() }
 // exactly one block: the round-processing step (same obligation as C02/O1, with
 // failing commit callbacks and failing store writes).
 func VerifHarness_C04_O5() { VerifHarness_C02_O1() }
+
+// C04/O7 — round-received across a validator-set change uses the candidate
+// round's thresholds for every event alike, so an ancestor is never received
+// later than its descendant because of the set it was created under (= C01/O4b).
+func VerifHarness_C04_O7() { VerifHarness_C01_O4b() }
+
+// C04/O8 — only events that extend their creator's chain by exactly one are
+// admitted: "seeing" is index arithmetic, a stale or skipped index would let an
+// event be ordered before its own ancestors (= C07/O1).
+func VerifHarness_C04_O8() { VerifHarness_C07_O1() }
